@@ -1283,6 +1283,11 @@ public:
     if (assignCost.getNumberOfColumns() != dim)
       throw Exception("MatrixTools::lap. Cost matrix should be scare.");
 
+    rowSol.resize(dim);
+    colSol.resize(dim);
+    u.resize(dim);
+    v.resize(dim);
+
     bool unassignedFound;
     size_t i, iMin;
     size_t numFree = 0, previousNumFree, f, k, freeRow;
